@@ -321,8 +321,24 @@ inline void aggregator_programs(const vf::opts &o, vf::report &R, vf::team &T, u
             else {
                 // Destruction while parked: in-flight asynchronous sources must be waited for. They can only finish when what they await is
                 // resolved, so resolve everything first (from ordinary code), then destroy from ordinary code as documented.
-                W.resolve_all();
-                g0.reset(); g1.reset();
+                bool inflight_destroy = mt && r.chance(1, 2);
+                if (!inflight_destroy) { W.resolve_all(); g0.reset(); g1.reset(); }
+                else {
+                    // Variant: the aggregate is destroyed (thread 0, ordinary code: blocks) while sources are REALLY in flight - suspended
+                    // on operations that thread 1 completes only after the destruction has begun. The destructor must wait for them;
+                    // no source frame may be destroyed while it is suspended inside its awaited operation.
+                    std::atomic<int> destroying{0};
+                    T.round([&](int tid) {
+                        if (tid == 0) { destroying.store(1, std::memory_order_release); g0.reset(); g1.reset(); }
+                        else if (tid == 1) {
+                            unsigned spins = 0;
+                            while (!destroying.load(std::memory_order_acquire)) g_polite_wait(spins);
+                            for (unsigned i = 0, n = (unsigned)(vf::mix(pseed, 91) % 3000); i < n; i++) vf::cpu_relax();
+                            W.resolve_all();
+                        }
+                    });
+                    R.cls("aggregates_destroyed_with_sources_in_flight");
+                }
             }
         }
         R.cases++;
